@@ -121,6 +121,13 @@ func udpScenario(c udpCase) *engine.Scenario {
 				add("socket-leak{listener-open}", "every client has been silent for longer than the timeout and the listener is still open: %d outbound socket(s) of their associations are still there", len(open))
 			}
 		}
+		if c.Kind == "reply" && len(tr.Steps) > 2 {
+			// whatever became of the first reply (too large to be packed, to be sent, from an odd source),
+			// the association is still there and the next, small reply of the same target reaches the client
+			if st := tr.Steps[2]; st.Skipped || len(st.ClientRecv) != 1 {
+				add("association-lost-after-reply", "after a reply of %d bytes from source %d the same client's next reply (5 bytes) was not relayed (association gone: %v)", c.A, c.B, st.Skipped)
+			}
+		}
 		if c.Kind != "shutdown" && c.Kind != "idle" && !(c.Kind == "socket-fail" && c.FailSocket >= 3) {
 			// the follower's exchange must have worked
 			n := len(tr.Steps)
